@@ -252,10 +252,10 @@ Definition chan_sel (p : params) (c : chan) : bool * bool :=
    gen_poll_w is_r is_w false && sel_writable (c_sock c)).
 
 Definition dispatch_reads (p : params) (now : Z) (xs : list (chan * bool * bool)) : list (chan * bool) :=
-  flat_map (fun x => match x with (c, r, w) =>
+  flat_map (fun x : chan * bool * bool => match x with (c, r, w) =>
      if r then match handle_read p now c with Some c' => [(c', w)] | None => [] end else [(c, w)] end) xs.
 Definition dispatch_writes (p : params) (now : Z) (xs : list (chan * bool)) : list chan :=
-  flat_map (fun x => match x with (c, w) =>
+  flat_map (fun x : chan * bool => match x with (c, w) =>
      if w then match handle_write p now c with Some c' => [c'] | None => [] end else [c] end) xs.
 
 (* one turn of wasyncore.poll(timeout, map) *)
@@ -281,10 +281,13 @@ Definition upd_chan (fd : Z) (f : chan -> chan) (s : state) : state :=
     (map (fun c => if c_fd c =? fd then f c else c) (st_chans s)) (st_nextfd s).
 
 Fixpoint add_backlog (i : nat) (k : sock) (ls : list listener) : option (list listener) :=
-  match ls, i with
-  | [], _ => None
-  | l :: r, O => Some (mkListener (l_accepting l) (l_overflow l) (l_ncc l) (l_backlog l ++ [k]) :: r)
-  | l :: r, S j => match add_backlog j k r with Some r' => Some (l :: r') | None => None end
+  match ls with
+  | [] => None
+  | l :: r =>
+    match i with
+    | O => Some (mkListener (l_accepting l) (l_overflow l) (l_ncc l) (l_backlog l ++ [k]) :: r)
+    | S j => match add_backlog j k r with Some r' => Some (l :: r') | None => None end
+    end
   end.
 
 Definition step (p : params) (s : state) (e : event) : state :=
